@@ -39,6 +39,9 @@ def run(tier, seed):
         neg = [c for k, c in enumerate(cfgs) if k % step == (seed % step)]
         pos = common.spec_to_code(chk, cfgs, make_real, relax=RELAX, neg_cfgs=neg, tag=tag)
         common.code_to_spec(chk, cfgs, make_real, tag=tag, expect_feasible=(lambda c, pos=pos: bool(pos and pos['behs'].get(c['id']))))
+    # long horizons: random walks of the specification (TLC -simulate) replayed into the implementation
+    common.long_horizon(chk, tier, seed, [('contract', fam.fam_contract), ('takes', fam.fam_takes), ('transport', fam.fam_transport),
+                                          ('transport_takes', fam.fam_transport_takes), ('multi', fam.fam_multi), ('composite', fam.fam_composite)], RELAX)
     # larger seeded portfolios (T = 12 / 24, up to 10 assets): TLC validates the optimiser's output, it does not enumerate
     common.code_to_spec(chk, fam.fam_random(seed + 100, n=16 if tier == 'quick' else 80, T=12 if tier == 'quick' else 24), lambda c: R.Real(c), tag='random', solvers=('SCIPY', None))
     chk.assumptions += ['parameters, prices and schedules on integer lattices in small ranges (DESIGN.md (L))',
